@@ -863,10 +863,12 @@ def _build_sense(
 
 
 def _build_example(example: Example) -> ET.Element:
-    elem = ET.Element('Example')
-    elem.text = example['text']
+    attrib = {}
     if example.get('language'):
-        elem.set('language', example['language'])
+        attrib['language'] = example['language']
+    attrib.update(_meta_dict(example.get('meta')))
+    elem = ET.Element('Example', attrib=attrib)
+    elem.text = example['text']
     return elem
 
 
